@@ -1039,6 +1039,7 @@ META = {
             "Memory safety of the C is observed (guards, ASan), proved only of the model. A pointer more than one past the end is formed (never "
             "dereferenced) by `y += n` in a_real_mulTT; the model treats it as a plain offset. Real-number axioms only under the R instances.",
     "technique": "Rocq proof (loop invariants over cursor arithmetic with explicit 32/64-bit wrap, induction on dimensions) + "
-                 "extracted-model (Z, N-indexed sparse) and PrimFloat vs C correspondence",
+                 "linalg.c re-translated on every run for every shape with dimensions 0..3 (loops unrolled, arrays exactly sized) and proved equal "
+                 "to the model for all contents (388 tie theorems) + extracted-model (Z, N-indexed sparse) and PrimFloat vs C correspondence",
     "category": "proof",
 }
